@@ -263,6 +263,41 @@ class SOpaque(Sym):
         return f"SOpaque({self.name})"
 
 
+class SeqPart(Sym):
+    """a segment of symbolic length n >= 0 of opaque elements; may be an *item* of an SList (the list
+    then has symbolic length).  Only length, concatenation, identity and structural equality are
+    supported on it; anything that would look inside is Unsupported."""
+    __slots__ = ('name', 'n')
+
+    def __init__(self, name, n):
+        self.name = name
+        self.n = n              # z3 Int, constrained >= 0 by the creator
+
+    def __repr__(self):
+        return f"SeqPart({self.name})"
+
+
+class SymColl(Sym):
+    """a list / tuple / set of symbolic length whose elements are opaque: one SeqPart"""
+    __slots__ = ('pytype', 'part')
+
+    def __init__(self, pytype, part):
+        self.pytype = pytype
+        self.part = part
+
+    def __repr__(self):
+        return f"SymColl({self.pytype.__name__}, {self.part.name})"
+
+
+class Repeat(Sym):
+    """item of a generated sequence: `value` once per element of a symbolic segment"""
+    __slots__ = ('value', 'part')
+
+    def __init__(self, value, part):
+        self.value = value
+        self.part = part
+
+
 class SFloat(Sym):
     """floats are not modelled; only their kind is known"""
     __slots__ = ('name',)
